@@ -59,6 +59,7 @@ type Term struct {
 	name    string
 	h1, h2  uint64
 	id      int
+	tab     []uint64 // value table over the single symbol (lazily computed)
 	single  *Term // the only symbol this term depends on, when that is a single 8-bit symbol
 	multi   bool  // depends on several symbols or on a non-byte symbol
 }
@@ -1085,4 +1086,78 @@ func sortTermsByID(ts []*Term) {
 		ts[k] = r[j]
 		k++
 	}
+}
+
+// table returns the values of a single-symbol term for every value 0..255 of its symbol.
+func (t *Term) table() []uint64 {
+	if t.tab != nil {
+		return t.tab
+	}
+	tab := make([]uint64, 256)
+	switch t.op {
+	case OpConst:
+		for v := range tab {
+			tab[v] = t.k
+		}
+	case OpSym:
+		for v := range tab {
+			tab[v] = uint64(v)
+		}
+	default:
+		var ta, tb, tc []uint64
+		if t.a != nil {
+			ta = t.a.table()
+		}
+		if t.b != nil {
+			tb = t.b.table()
+		}
+		if t.c != nil {
+			tc = t.c.table()
+		}
+		for v := 0; v < 256; v++ {
+			var r uint64
+			switch t.op {
+			case OpNot:
+				r = ^ta[v] & mask(t.w)
+			case OpNeg:
+				r = -ta[v] & mask(t.w)
+			case OpConcat:
+				r = ta[v]<<t.b.w | tb[v]
+			case OpExtract:
+				hi, lo := uint8(t.k>>8), uint8(t.k&0xff)
+				r = (ta[v] >> lo) & mask(hi-lo+1)
+			case OpZExt:
+				r = ta[v]
+			case OpSExt:
+				r = uint64(signExtend(ta[v], t.a.w)) & mask(t.w)
+			case OpIte:
+				if ta[v] != 0 {
+					r = tb[v]
+				} else {
+					r = tc[v]
+				}
+			case OpEq:
+				r = b2u(ta[v] == tb[v])
+			case OpUlt:
+				r = b2u(ta[v] < tb[v])
+			case OpUle:
+				r = b2u(ta[v] <= tb[v])
+			case OpSlt:
+				r = b2u(signExtend(ta[v], t.a.w) < signExtend(tb[v], t.b.w))
+			case OpSle:
+				r = b2u(signExtend(ta[v], t.a.w) <= signExtend(tb[v], t.b.w))
+			case OpBAnd:
+				r = b2u(ta[v] != 0 && tb[v] != 0)
+			case OpBOr:
+				r = b2u(ta[v] != 0 || tb[v] != 0)
+			case OpBNot:
+				r = b2u(ta[v] == 0)
+			default:
+				r = evalBin(t.op, t.w, ta[v], tb[v])
+			}
+			tab[v] = r
+		}
+	}
+	t.tab = tab
+	return tab
 }
